@@ -26,6 +26,10 @@
 //
 pub use self::base::{Collector, Cleanup, Run, Repository};
 pub use self::rrdp::{HttpStatus, RrdpArchive, SnapshotReason};
+#[cfg(routinator_verif)]
+pub use self::rrdp::{
+    FallbackTime, RepositoryState, RrdpObjectMeta, SnapshotRrdpArchive,
+};
 
 mod base;
 mod rrdp;
